@@ -49,7 +49,7 @@ def evaluate(prop, cases, workdir, tag):
         if getattr(prop, "VALIDATE_MIX", False) and i % 3 == 1 and "validate" not in c["opts"]:
             c["opts"]["validate"] = True      # every third case goes through naga's validator as well (it must only gate)
     try:
-        plain = [{k: c[k] for k in ("id", "wgsl", "include", "opts", "want_text", "want_toks", "want_rest") if k in c} for c in cases]
+        plain = [{k: c[k] for k in ("id", "wgsl", "include", "opts", "want_text", "want_toks", "want_rest", "want_lit") if k in c} for c in cases]
         if hasattr(prop, "run_cases"):
             results = prop.run_cases(plain, cases, workdir, tag)
         else:
